@@ -24,7 +24,7 @@ type gen struct {
 	batchMax   int
 }
 
-var allLeafKinds = []string{"base", "base", "plain", "retry", "fb", "retryfb", "func", "func", "func", "zst"}
+var allLeafKinds = []string{"base", "base", "plain", "retry", "fb", "retryfb", "func", "func", "func", "zst", "ovr"}
 var payKinds = []string{"int", "str", "float", "map", "slice", "ptr", "struct", "nil", "nilptr", "nilmap", "nilslice", "errpay"}
 var failKinds = []string{"sentinel", "wrapped", "custom", "wrapcustom", "ctxerr"}
 var actionAlphabet = []string{"default", "", "a", "ab", "b", "Default"} // "Default" differs from the default action by case only
@@ -172,13 +172,16 @@ func (g *gen) leaf(nv int) *NodeSpec {
 		}
 	}
 	switch n.Kind {
-	case "base":
+	case "base", "ovr":
 		n.HasFb = g.chance(0.5)
 	case "func":
 		n.Styles = string([]byte{pick(g.r, []byte("RA")), pick(g.r, []byte("RA")), pick(g.r, []byte("RA"))})
 		if g.chance(0.12) { // phases left unset fall back to the base node's defaults
 			st := []byte(n.Styles)
-			st[1+g.r.IntN(2)] = '-'
+			st[g.r.IntN(3)] = '-'
+			if g.chance(0.3) {
+				st[g.r.IntN(3)] = '-' // e.g. a routing-only node: nothing but a post function
+			}
 			n.Styles = string(st)
 		}
 		n.HasFb = g.chance(0.5)
@@ -1191,6 +1194,11 @@ func (g *gen) anyNode(action string) *NodeSpec {
 			st := []byte(n.Styles)
 			st[2] = '-'
 			n.Styles = string(st)
+		} else if n.Kind == "func" && g.chance(0.3) {
+			n.Styles = "--" + n.Styles[2:] // routing-only: just a post function
+			if n.Styles[2] == '-' {
+				n.Styles = "--R"
+			}
 		}
 		n.Visits[0].Post.Action = action
 		if n.hasFallback() && hasPhase(n, 1) && g.chance(0.4) {
@@ -1290,6 +1298,22 @@ func addDecoys(sc *Scn, r *rand.Rand) {
 func genC17(prop, tier string, r *rand.Rand) *Scn {
 	sc := genC17base(prop, tier, r)
 	addDecoys(sc, r)
+	if r.IntN(6) == 0 {
+		// payloads are handed on unchanged also when the context ends meanwhile:
+		// whatever a callback returned normally is what the next phase receives
+		if n := sc.Nodes[sc.Root]; n.Kind == "batch" && len(n.Visits[0].Items) > 0 {
+			sc.Ctx.Kind = "cancel"
+			sc.Runs = 1
+			if r.IntN(3) == 0 {
+				sc.Canceller = &Canceller{Kind: "ticket"}
+			} else {
+				it := &n.Visits[0].Items[r.IntN(len(n.Visits[0].Items))]
+				it.Exec[r.IntN(len(it.Exec))].Cancel = true
+			}
+		} else {
+			withCancellation(sc, r)
+		}
+	}
 	return sc
 }
 
@@ -1484,7 +1508,7 @@ func genC20(prop, tier string, r *rand.Rand) *Scn {
 	g.failP = 0.5
 	g.sleepP = 0.2
 	g.sc.Faulty = true
-	g.kinds = []string{"base", "retry", "retryfb", "func"}
+	g.kinds = []string{"base", "retry", "retryfb", "func", "ovr"}
 	budget := 2 + r.IntN(4)
 	wait := pick(r, []int{10, 20, 30, 40, 50, 3600000})
 	cancelInWait := r.IntN(3) == 0
